@@ -461,7 +461,7 @@ def shrink(case):
 def plan(tier):
   if tier == 'quick':
     return {'batches': 48, 'timeout': 1500, 'cases': 9, 'wall_budget_s': 420}
-  return {'batches': 640, 'timeout': 1800, 'cases': 24, 'wall_budget_s': 1500}
+  return {'batches': 640, 'timeout': 3000, 'cases': 24, 'wall_budget_s': 1500}
 
 
 def depth_class(d):
